@@ -32,7 +32,7 @@ func init() {
 	})
 }
 
-var c15Units = []string{"a", " ", "\"", "\\", "\n", "\r", "\t", "#", "\"\"\"", "\\\"", "é", "😀", "\x01"}
+var c15Units = []string{"a", " ", "\"", "\\", "\n", "\r", "\t", "#", "\"\"\"", "\\\"", "é", "😀", "\x01", "\U000E0067"} // the last: not printable and beyond the BMP (a tag character)
 
 func c15Strings(maxLen int) []string {
 	out := []string{}
@@ -68,7 +68,7 @@ func c15Class(s string) string {
 		return "tab"
 	case strings.Contains(s, "#"):
 		return "hash"
-	case strings.ContainsAny(s, "é😀"):
+	case strings.ContainsAny(s, "é😀\U000E0067"):
 		return "non-ascii"
 	case strings.TrimSpace(s) != s:
 		return "outer-space"
